@@ -19,8 +19,20 @@ extension ids `< 65536` are the Rust types `u8`, `u16`, `u32` (the model uses `N
 needed to say that the field read back is the argument itself rather than its truncation.
 `ExtOk` (Props/C09.lean) is the tie between the variant and the data of an `Extension`.
 
-The proofs apply `Spec.parse` to the closed forms of Lemmas/EncapLayer.lean
-(`parse_complete`, `parse_first`, `parse_inter`, `parse_end` in Lemmas/WireLayer.lean).
+Vocabulary (Lemmas/WireLayer.lean): `st.wireLen` is the length an `EncapStatus` reports;
+`Emitted buf buf' n p` :=  `n ≤ buf.length ∧ buf'.length = buf.length ∧ buf'.drop n = buf.drop n ∧
+Spec.parse (buf'.take n) = some p ∧ p.gseLen + FIXED_HEADER_LEN = n ∧ p.gseLen ≤ GSE_LEN_MAX`;
+`lt.code` is the 2-bit LT code of a label type; `extBytes pt exts` are the bytes `encap_ext` puts
+between label and PDU (extension chain, then the protocol type unless the last extension is a
+final mandatory one).
+
+The proofs apply `Spec.parse` to the closed forms of Lemmas/EncapLayer.lean (`parse_complete`,
+`parse_first`, `parse_inter`, `parse_end`, then `encap_wire`, `encapFrag_wire`, `encapExt_wire`
+in Lemmas/WireLayer.lean).
+
+Remark on `encap_ext` (not part of C06, which fixes the total length only for packets without
+extensions): the Total Length written with a first fragment is 2 + label + PDU also when
+extension headers are present, i.e. it does not count the extension bytes.
 -/
 import GseVerif.Lemmas.WireLayer
 import GseVerif.Props.C09
@@ -42,7 +54,7 @@ open C09 C06
 theorem C06_wellformed_encap (crc : CrcFn) (es : Enc) (pdu : Bytes) (fid pt : Nat) (label : Label)
     (buf : Bytes) (st : EncStatus) (hfid : fid < 256) (hpt : pt < 65536)
     (h : (encap crc es pdu fid pt label buf).res = .ok st) :
-    ∃ p, Emitted buf (encap crc es pdu fid pt label buf).buf st.len p ∧
+    ∃ p, Emitted buf (encap crc es pdu fid pt label buf).buf st.wireLen p ∧
       p.startBit = true ∧
       p.labelType = (checkLabelReUse es label).1.type.code ∧
       p.label = (checkLabelReUse es label).1.bytes ∧
@@ -85,7 +97,7 @@ example : (encap crc0 Enc.new bigPdu 1 0x0800 lab6 (List.replicate 70000 0)).res
 theorem C06_wellformed_encapFrag (pdu : Bytes) (ctx : FragCtx) (buf : Bytes) (st : EncStatus)
     (hfid : ctx.fragId < 256) (hcrc : ctx.crc < 2 ^ 32)
     (h : (encapFrag pdu ctx buf).1 = .ok st) :
-    ∃ p, Emitted buf (encapFrag pdu ctx buf).2 st.len p ∧
+    ∃ p, Emitted buf (encapFrag pdu ctx buf).2 st.wireLen p ∧
       p.startBit = false ∧
       p.labelType = LabelType.reuse.code ∧ p.label = [] ∧
       p.fragId = some ctx.fragId ∧ p.totalLen = none ∧ p.typeField = none ∧
@@ -124,7 +136,7 @@ theorem C06_wellformed_encapExt (crc : CrcFn) (es : Enc) (pdu : Bytes) (fid pt :
     (buf : Bytes) (exts : List Ext) (st : EncStatus) (hwf : ExtOk exts)
     (hfid : fid < 256) (hid : ∀ e ∈ exts, e.id < 65536)
     (h : (encapExt crc es pdu fid pt label buf exts).res = .ok st) :
-    ∃ p, Emitted buf (encapExt crc es pdu fid pt label buf exts).buf st.len p ∧
+    ∃ p, Emitted buf (encapExt crc es pdu fid pt label buf exts).buf st.wireLen p ∧
       p.startBit = true ∧
       p.labelType = (checkLabelReUse es label).1.type.code ∧
       p.label = (checkLabelReUse es label).1.bytes ∧
@@ -171,14 +183,14 @@ example : (encapExt crc0 Enc.new smallPdu 1 0x0081 lab6 buf40 [ext2, extM]).res
 theorem C06_gseLen_bound :
     (∀ (crc : CrcFn) (es : Enc) (pdu : Bytes) (fid pt : Nat) (label : Label) (buf : Bytes)
         (st : EncStatus), (encap crc es pdu fid pt label buf).res = .ok st →
-        st.len ≤ GSE_LEN_MAX + FIXED_HEADER_LEN ∧ st.len ≤ buf.length) ∧
+        st.wireLen ≤ GSE_LEN_MAX + FIXED_HEADER_LEN ∧ st.wireLen ≤ buf.length) ∧
     (∀ (pdu : Bytes) (ctx : FragCtx) (buf : Bytes) (st : EncStatus),
         (encapFrag pdu ctx buf).1 = .ok st →
-        st.len ≤ GSE_LEN_MAX + FIXED_HEADER_LEN ∧ st.len ≤ buf.length) ∧
+        st.wireLen ≤ GSE_LEN_MAX + FIXED_HEADER_LEN ∧ st.wireLen ≤ buf.length) ∧
     (∀ (crc : CrcFn) (es : Enc) (pdu : Bytes) (fid pt : Nat) (label : Label) (buf : Bytes)
         (exts : List Ext) (st : EncStatus), ExtOk exts →
         (encapExt crc es pdu fid pt label buf exts).res = .ok st →
-        st.len ≤ GSE_LEN_MAX + FIXED_HEADER_LEN ∧ st.len ≤ buf.length) := by
+        st.wireLen ≤ GSE_LEN_MAX + FIXED_HEADER_LEN ∧ st.wireLen ≤ buf.length) := by
   refine ⟨fun crc es pdu fid pt label buf st h => ?_, fun pdu ctx buf st h => ?_,
     fun crc es pdu fid pt label buf exts st hwf h => ?_⟩
   · obtain ⟨p, ⟨h1, _, _, _, h5, h6⟩, _⟩ := encap_wire crc es pdu fid pt label buf st h
